@@ -6,7 +6,7 @@ from schc_run import Batch, obs_bits, with_timeout, parse_model_bits, parser_for
 from schc_util import n_rule, n_pdesc, rules_tokens, pdesc_tokens, tb, DIRC, gen_rule, gen_rfd, KINDS
 from gens import gen_parsed, gen_ruleset, b2s, gen_packet
 from microschc.rfc8724 import (FieldDescriptor, PacketDescriptor, RuleFieldDescriptor, RuleDescriptor, MatchMapping, RuleNature,
-                               DirectionIndicator as DI)
+                               DirectionIndicator as DI, MatchingOperator as MO, CompressionDecompressionAction as CDA)
 from microschc.rfc8724extras import Context
 from microschc.manager import ContextManager
 from microschc.manager.manager import MatchStrategy
@@ -303,8 +303,52 @@ def front_histories(rep, rnd, tier):
                 return
 
 
+def synthetic_shared(rep, rnd, tier):
+    """one synthetic packet descriptor (fields of every size, not byte aligned) compressed in turn with several rules over the same
+    fields: compress must leave the descriptor and the rules as they were, so a later compression sees what the first one saw"""
+    from gens import synth_case, synth_pdesc, payload_variants
+    from schc_util import ref_compress
+    n = 150 if tier == 'quick' else 1500
+    for i in range(n):
+        rule, vals = synth_case(rnd)
+        # (field values left-padded, as the parsers produce them: the LSB action documents that it reads them so)
+        # every third descriptor has fields of either side: there only the absence of side effects is judged
+        anyside = (i % 3 == 0)
+        pd = PacketDescriptor(direction=DI.UP, fields=[FieldDescriptor(id=rf.id, value=mk(v, rnd.choice([L, R]) if anyside else L), position=0) for rf, v in zip(rule.field_descriptors, vals)],
+                              payload=mk(payload_variants(rnd), rnd.choice([L, R])))
+        # alternative rules over the same fields: value-sent / variable length first, then MSB-LSB on the same values
+        alts = [rule]
+        for kinds in (('vs', 'vsv'), ('lsb', 'lsbv')):
+            fds = []
+            for rf, v in zip(rule.field_descriptors, vals):
+                k = rnd.choice(kinds)
+                if k in ('vs', 'vsv'):
+                    fds.append(RuleFieldDescriptor(rf.id, len(v) if k == 'vs' else 0, 0, DI.BIDIRECTIONAL, Buffer(b'', 0), MO.IGNORE, CDA.VALUE_SENT))
+                else:
+                    x = rnd.randint(0, len(v))
+                    fds.append(RuleFieldDescriptor(rf.id, len(v) if k == 'lsb' else 0, 0, DI.BIDIRECTIONAL, mk(v[:x], rnd.choice([L, R])), MO.MSB, CDA.LSB))
+            alts.append(RuleDescriptor(id=mk(randbits(rnd, 5)), field_descriptors=fds))
+        rnd.shuffle(alts)
+        for r in alts + alts[:1]:
+            want = ref_compress(n_pdesc(pd), n_rule(r))
+            bufs, before = snap([pd, r])
+            got = obs_bits(with_timeout(lambda: compress(pd, r)))
+            ch = changed(bufs, before)
+            rep.count('shared-synthetic:compress', key=('ss', i, id(r)))
+            rep.oracle_evals += 1
+            if ch:
+                rep.violation('property', 'compress modified a reachable Buffer of the packet descriptor or the rule: %r -> %r' % ch[0],
+                              dict(layer='history', op='compress-synthetic', pdesc=n_pdesc(pd), rule=n_rule(r)))
+                return
+            if want is not None and not anyside and got != ('OK', want):
+                rep.violation('property', 'compress on a descriptor already compressed with other rules gives %s, expected %s' % (str(got)[:80], want[:80]),
+                              dict(layer='history', op='compress-synthetic-shared', pdesc=n_pdesc(pd), rule=n_rule(r)))
+                return
+
+
 def run(rep, tier, seed):
     bc.run_family(rep, 'C16', tier, seed)
+    synthetic_shared(rep, rng_for(seed, 'C16-synthetic'), tier)
     front_histories(rep, rng_for(seed, 'C16-front'), tier)
     rnd = rng_for(seed, 'C16-histories')
     histories(rep, rnd, tier)
